@@ -421,8 +421,10 @@ PROPS["C17"] = {
 
 PROPS["C14"] = {
     "pkg": "c14", "level": "exploration",
-    "rule": ("admin_and_traffic: a CHILD relay-like process (the test binary in worker mode: real table, live TCP sink and HTTP endpoint so that connection-time "
-             "code runs, no recover anywhere) is fed generated 'relay lives': 1-6 admin commands / TOML sections (grammar over every documented "
+    "rule": ("admin_and_traffic: a CHILD relay-like process (the test binary in worker mode: real table, the real TCP admin interface (ui/telnet) listening on a loopback port, live TCP sink and HTTP endpoint so that "
+             "connection-time code runs, no recover anywhere) is fed generated 'relay lives': 1-6 admin commands, sent as bytes over a TCP "
+             "connection to the admin port (also raw bytes, lines longer than the port's 1024-byte read, near-miss command words) / TOML sections "
+             "(grammar over every documented "
              "command and option with values biased to {0,1,2,10,2^31,2^32,2^63-1,2^63,10^20, empty, missing, duplicated}, mutations of the "
              "documented examples, garbage; TOML aggregations without regex/interval, routes of all carbon types, grafanaNet, rewriters, "
              "blacklist), metric traffic matching the configured filters on the plain input (valid, invalid, binary junk, 'now'-stamped lines), "
